@@ -137,13 +137,15 @@ void h_fn_suppr(void)
   _Bool cfg[10]; for (int i = 0; i < 10; i++) cfg[i] = nondet_bool();
   u32 ck = nondet_u32(), k = nondet_u32(); __CPROVER_assume(ck <= 7 && k <= 7 && k != 0);
   _Bool allow = nondet_bool();
-  _Bool name_same = nondet_bool(), symname_same = nondet_bool(), ver_same = nondet_bool(), ret_same = nondet_bool();
+  _Bool name_same = nondet_bool(), symname_same = nondet_bool(), ret_same = nondet_bool();
+  u32 ver_kind = nondet_u32(); __CPROVER_assume(ver_kind < 3);   /* the function's symbol version: the section's, another one, none */
+  _Bool ver_same = ver_kind == 0;
   has_sym = nondet_bool(); alias_from_name = nondet_bool(); sym_has_aliases = nondet_bool(); n_aliases = nondet_u32(); __CPROVER_assume(n_aliases <= 2);
   has_ret = nondet_bool();
   for (int i = 0; i < 6; i++) { fs_compile_ok[i] = nondet_bool(); fs_compiled[i] = 0; for (int j = 0; j < 10; j++) fs_match[i][j] = nondet_bool(); }
   vs_make(&fn_qname, name_same ? "f" : "g"); fn_qname_i.raw = &fn_qname;
   vs_make(&ret_tname, ret_same ? "int" : "long"); ret_tname_i.raw = &ret_tname;
-  vs_make(&sym_name, symname_same ? "f" : "h"); vs_make(&sym_version, ver_same ? "1" : "2");
+  vs_make(&sym_name, symname_same ? "f" : "h"); vs_make(&sym_version, ver_kind == 0 ? "1" : ver_kind == 1 ? "2" : "");
   vs_make(&alias_name[0], nondet_bool() ? "f" : "a"); vs_make(&alias_name[1], nondet_bool() ? "f" : "b");
   fn_vt[0] = 0; fn_vt[3 + 9] = (void *)qn_fn; fn_obj[0] = (u64)&fn_vt[3];
   rett_vt[0] = 0; rett_vt[3 + 9] = (void *)qn_rett; rett_obj[0] = (u64)&rett_vt[3];
@@ -158,7 +160,8 @@ void h_fn_suppr(void)
   if (has_sym && cfg[3] && !symname_same) PROP(!r, "C22-symbol-name-mismatch: a function whose symbol name differs from symbol_name is not suppressed");
   if (has_sym && !cfg[3] && cfg[4] && fs_compile_ok[2] && !fs_match[2][symname_same ? 0 : 2]) PROP(!r, "C22-symbol-name-regexp-mismatch");
   if (has_sym && !cfg[3] && cfg[5] && fs_compile_ok[3] && fs_match[3][symname_same ? 0 : 2]) PROP(!r, "C22-symbol-name-not-regexp-match");
-  if (has_sym && cfg[6] && !ver_same) PROP(!r, "C22-symbol-version-mismatch: a function whose symbol version differs from symbol_version is not suppressed");
+  if (has_sym && cfg[6] && !ver_same) PROP(!r, "C22-symbol-version-mismatch: a function whose symbol version differs from symbol_version (or whose symbol has no version) is not suppressed");
+  COVER(has_sym && cfg[6] && ver_kind == 2);
   if (cfg[8] && !(has_ret && ret_same)) PROP(!r, "C22-return-type-mismatch: a function whose return type name differs from return_type_name is not suppressed");
   /* exact name, nothing else: hides exactly the named function */
   { int only_name = cfg[0]; for (int i = 1; i < 10; i++) if (cfg[i]) only_name = 0;
